@@ -15,6 +15,7 @@ import (
 	"time"
 
 	ledger "github.com/formancehq/ledger/internal"
+	"github.com/formancehq/ledger/internal/engine/command"
 	"github.com/formancehq/ledger/internal/machine"
 	"github.com/formancehq/ledger/internal/machine/script/compiler"
 	"github.com/formancehq/ledger/internal/machine/vm"
@@ -403,6 +404,25 @@ func oracles(r *vx.Run, in nsx.Input, ast *nsx.Script, ob runObs) {
 			r.FailP("C03", "negative-posting", in, fmt.Sprintf("%+v", p), size)
 		}
 	}
+	// C03 (a): conservation for scripts whose sends all state a literal amount and keep nothing back
+	if want, ok := statedTotals(ast); ok {
+		got := map[string]*big.Int{}
+		for _, p := range ob.Postings {
+			if got[p.Asset] == nil {
+				got[p.Asset] = big.NewInt(0)
+			}
+			got[p.Asset].Add(got[p.Asset], (*big.Int)(p.Amount))
+		}
+		for asset, w := range want {
+			g := got[asset]
+			if g == nil {
+				g = big.NewInt(0)
+			}
+			if g.Cmp(w) != 0 {
+				r.FailP("C03", "conservation:postings-do-not-add-up-to-the-stated-amount", in, fmt.Sprintf("asset %s: sends state %s, postings move %s", asset, w, g), size)
+			}
+		}
+	}
 	// C01: floor
 	unb, bnd := collectGrants(ast, ob.AllVars)
 	running := map[string]*big.Int{}
@@ -440,6 +460,29 @@ func oracles(r *vx.Run, in nsx.Input, ast *nsx.Script, ob runObs) {
 		k2 := p.Destination + "\x00" + p.Asset
 		running[k2] = new(big.Int).Add(get(p.Destination, p.Asset), amt)
 	}
+}
+
+// statedTotals: per asset, the sum of the literal amounts of the sends, when every send is `send [ASSET n]` with a
+// literal asset and no destination keeps anything back
+func statedTotals(ast *nsx.Script) (map[string]*big.Int, bool) {
+	tot := map[string]*big.Int{}
+	for _, st := range ast.Stmts {
+		if st.K != "send" {
+			continue
+		}
+		if st.All != nil || st.Mon == nil || st.Mon.K != "mon" || st.Mon.Asset.K != "asset" || leavesLeftover(nsx.Kod{D: st.Dest}) {
+			return nil, false
+		}
+		n, ok := new(big.Int).SetString(st.Mon.Text, 10)
+		if !ok {
+			return nil, false
+		}
+		if tot[st.Mon.Asset.Text] == nil {
+			tot[st.Mon.Asset.Text] = big.NewInt(0)
+		}
+		tot[st.Mon.Asset.Text].Add(tot[st.Mon.Asset.Text], n)
+	}
+	return tot, len(tot) > 0
 }
 
 func hasFallback(s *nsx.Source) bool {
@@ -556,7 +599,59 @@ func sameObs(a, b runObs) bool {
 	return true
 }
 
+// the engine's compilation cache (command.Compiler: gcache keyed by a digest of the text), in three sizes; every
+// script of the run goes through all of them and must get what a fresh compilation gives
+var caches = []*command.Compiler{command.NewCompiler(1), command.NewCompiler(2), command.NewCompiler(64)}
+
+func sameProgram(a, b *program.Program) bool {
+	if (a == nil) != (b == nil) {
+		return false
+	}
+	if a == nil {
+		return true
+	}
+	if string(a.Instructions) != string(b.Instructions) || len(a.Resources) != len(b.Resources) {
+		return false
+	}
+	n1, n2 := nsx.NewNames(), nsx.NewNames()
+	return n1.Program(a) == n2.Program(b)
+}
+
+func cacheCheck(r *vx.Run, in nsx.Input, script string) {
+	fresh, ferr, pan := compileSafe(script)
+	if pan != "" {
+		return
+	}
+	for i, c := range caches {
+		got, err := c.Compile(script)
+		if (err == nil) != (ferr == nil) || (err == nil && !sameProgram(got, fresh)) {
+			in2 := in
+			in2.Script = script
+			r.FailP("C08", fmt.Sprintf("cache:differs-from-fresh-compilation:size-%d", []int{1, 2, 64}[i]), in2,
+				"command.Compiler returned a program (or error) other than compiler.Compile of the same text", len(script))
+		}
+	}
+}
+
+// whitespace variants of a script: other texts, possibly other programs, that a cache must keep apart
+func variants(script string) []string {
+	var vs []string
+	if i := strings.Index(script, "\"a b\""); i >= 0 {
+		vs = append(vs, script[:i]+"\"a  b\""+script[i+5:])
+	}
+	if strings.Contains(script, "\n  ") {
+		vs = append(vs, strings.ReplaceAll(script, "\n  ", "\n "))
+	}
+	vs = append(vs, strings.Join(strings.Fields(script), " "))
+	return vs
+}
+
 func one(r *vx.Run, in nsx.Input) {
+	cacheCheck(r, in, in.Script)
+	for _, v := range variants(in.Script) {
+		cacheCheck(r, in, v)
+	}
+	cacheCheck(r, in, in.Script)
 	ob := observe(in)
 	ast := nsx.Parse(in.Script)
 	oracles(r, in, ast, ob)
@@ -584,6 +679,62 @@ func one(r *vx.Run, in nsx.Input) {
 	r.Case(coqCase(in, ast, ob), in, string(key), nontrivial)
 }
 
+// boundaryFamily: small systematic scripts around the limits of what an account may give: two or three takes from
+// the same account with none / bounded / unbounded overdraft, amounts at balance+overdraft -1, 0, +1, with an
+// optional credit in between, as two sends, as an ordered source, and as two portions of one allotment source.
+func boundaryFamily() []nsx.Input {
+	var out []nsx.Input
+	ovs := []string{"", " allowing overdraft up to [USD 5]", " allowing unbounded overdraft"}
+	send := func(amt int64, src, dst string) string {
+		if amt < 0 {
+			amt = 0
+		}
+		return fmt.Sprintf("send [USD %d] (\n  source = %s\n  destination = %s\n)\n", amt, src, dst)
+	}
+	for _, b := range []int64{-5, 0, 10} {
+		bal := map[string]map[string]string{"a": {"USD": fmt.Sprint(b)}, "c": {"USD": "4"}}
+		for i1, ov1 := range ovs {
+			for i2, ov2 := range ovs {
+				lim1 := b
+				if i1 == 1 {
+					lim1 += 5
+				}
+				for _, x1 := range []int64{0, 3, lim1} {
+					for _, d := range []int64{-1, 0, 1, 5, 6} {
+						lim2 := b - x1
+						if i2 == 1 {
+							lim2 += 5
+						}
+						x2 := lim2 + d
+						if x2 < 0 {
+							continue
+						}
+						two := send(x1, "@a"+ov1, "@b") + send(x2, "@a"+ov2, "@b")
+						out = append(out, nsx.Input{Script: two, Vars: map[string]string{}, Balances: bal, Meta: map[string]map[string]string{}, Note: "boundary:two-sends"})
+						if d == 0 {
+							mid := send(x1, "@a"+ov1, "@b") + send(2, "@world", "@a") + send(x2+2, "@a"+ov2, "@b")
+							out = append(out, nsx.Input{Script: mid, Vars: map[string]string{}, Balances: bal, Meta: map[string]map[string]string{}, Note: "boundary:credit-between"})
+						}
+					}
+				}
+				if i1 == 2 {
+					continue
+				}
+				for _, x := range []int64{b + 4, b + 5, b + 6, b + 9, b + 10, b + 11} {
+					if x < 0 {
+						continue
+					}
+					ordered := fmt.Sprintf("send [USD %d] (\n  source = {\n    max [USD 3] from @a%s\n    @c\n  }\n  destination = @b\n)\n", x, ov1) + send(x, "@a"+ov2, "@b")
+					out = append(out, nsx.Input{Script: ordered, Vars: map[string]string{}, Balances: bal, Meta: map[string]map[string]string{}, Note: "boundary:ordered"})
+					allot := fmt.Sprintf("send [USD %d] (\n  source = {\n    1/2 from @a%s\n    1/2 from @a%s\n  }\n  destination = @b\n)\n", x, ov1, ov2)
+					out = append(out, nsx.Input{Script: allot, Vars: map[string]string{}, Balances: bal, Meta: map[string]map[string]string{}, Note: "boundary:allotment-same-account"})
+				}
+			}
+		}
+	}
+	return out
+}
+
 func main() {
 	r := vx.Start("C08", "numscript")
 	r.Cases("From FL Require Import Numscript.Corr.\nClose Scope Z_scope.\nOpen Scope nat_scope.\n", "ncase", 250)
@@ -604,6 +755,14 @@ func main() {
 		N = 40000
 	}
 	g := vx.NewRng(r.Seed)
+	fam := boundaryFamily()
+	for i, in := range fam {
+		// quick tier: a seeded third of the family; thorough: all of it
+		if r.Thorough() || g.Intn(3) == 0 || i%97 == 0 {
+			one(r, in)
+			r.Count("boundary-family")
+		}
+	}
 	for i := 0; i < N; i++ {
 		gen := nsx.NewG(g.Fork())
 		one(r, gen.Case())
